@@ -24,6 +24,7 @@ STMT_KINDS = {"let", "var", "set", "node", "edge", "attrn", "attre", "print", "s
 class Tagger:
     def __init__(self):
         self.n = 0
+        self.nraw = 0
 
     def tag(self):
         self.n += 1
@@ -106,6 +107,11 @@ class Tagger:
         elif k == "call":
             for x in e["args"]:
                 self.expr(x)
+        elif k == "str":
+            # every other literal that holds a line break or a tab is written over several lines / with the tab as it is
+            if "raw" not in e:
+                self.nraw += 1 if ("\n" in e["v"] or "\t" in e["v"]) else 0
+                e["raw"] = ("\n" in e["v"] or "\t" in e["v"]) and self.nraw % 2 == 1
 
 
 def substitute(x, pos):
@@ -113,7 +119,7 @@ def substitute(x, pos):
     if isinstance(x, dict):
         out = {}
         for k, v in x.items():
-            if k in ("bare", "trail"):
+            if k in ("bare", "trail", "raw"):
                 continue
             if k == "loc":
                 out[k] = pos[v] if isinstance(v, int) else v
@@ -158,7 +164,7 @@ def hand_asts():
     deep = A.lst(A.st(A.lst(A.st(A.lst(i(1), s("é中 ; not a comment")), i(2)), s("")), A.call("f", A.call("g", A.call("h", A.lst())))), A.null(), A.true(), A.false())
     deep["trail"] = True
     deep["elems"][0]["trail"] = True
-    exprs = [deep, i(0), i(4294967295), s("q\"uote \\ back\nnl\ttab\rcr"), A.lst(), A.st(), A.lst(i(1)), A.st(s("x")),
+    exprs = [s("l1\nl2\n\n  l4"), s("l1\nl2"), s("t\tb\n"), deep, i(0), i(4294967295), s("q\"uote \\ back\nnl\ttab\rcr"), A.lst(), A.st(), A.lst(i(1)), A.st(s("x")),
              A.listc(A.call("plus", v("x"), i(1)), "x", A.lst(i(1), i(2))), A.setc(A.svar(v("y"), "a"), "y", A.listc(v("z"), "z", c("xs"))),
              A.svar(A.svar(A.svar(c("m"), "a"), "b"), "c"), A.svar(A.call("f", c("m")), "d"), A.svar(A.lst(c("m")), "weird"),
              A.call("no-args"), A.call("f", A.rcap(0), A.rcap(12), c("m"), v("v"), s("s"), i(7), A.null())]
